@@ -123,6 +123,10 @@ EXTRA = [
     ("cycle", "let a = b; b = a; in { x = a; }\n", "x", "CYCLE"),
     ("self-cycle", "rec { x = x; }\n", "x", "CYCLE"),
     ("unbound", "{ x = nope; }\n", "x", None),
+    # let layers whose binding lists are element-wise equal (== is not identity)
+    ("twin-layers-free-name", "let x = 1; in let a = x; in let x = 2; in let a = x; in { foo = a; }\n", "foo", "2"),
+    ("twin-layers-same-expr", 'let v = "1"; w = v; in let v = "1"; w = v; in { foo = w; }\n', "foo", '"1"'),
+    ("twin-layer-on-nested-set", "let x = 1; in let a = x; in { n = let x = 2; in let a = x; in { foo = a; }; }\n", "n.foo", "2"),
     ("formal-default", '({ n ? "D" }: { x = n; }) { }\n', "x", '"D"'),
     ("formal-arg-over-default", '({ n ? "DEF" }: { x = n; }) { n = "D"; }\n', "x", '"D"'),
 ]
@@ -137,7 +141,9 @@ def eval_extra(item):
     src = parse(text)
     t0 = time.time()
     try:
-        ref = src[key]
+        ref = src
+        for k in key.split("."):
+            ref = ref[k]
         got = ref.value.rebuild().strip() if isinstance(ref, Identifier) else ref.rebuild().strip()
     except ResolutionError:
         got = None
